@@ -1,7 +1,8 @@
 \* thorough: read-back clauses three edits deep around height changes of blocks 7 and 8, edits at the centre assembly and the core
-CONSTANTS NLeaf = 6  NBlk = 3  NAsm = 2  MaxLevel = 4  LMax = 20000  VMax = 100
+CONSTANTS NLeaf = 6  NBlk = 3  NAsm = 2  MaxLevel = 4  LSrc = 600  LMax = 20000  VMax = 100
 CONSTANTS Parent <- TCoreParent  Area <- TCoreArea  Height <- TCoreHeight  Sym <- TCoreSym  W <- Wt  N0 <- TCoreN0  H0 <- TCoreH0
 CONSTANTS Targets <- TCoreTargetsG  Vals <- ValsG  Facs <- None  Masses <- MassesG  Maps <- None  FracMaps <- None  AddMaps <- AddMapsG  SetMaps <- None
+CONSTANTS AdjSets <- AdjSetsG  EnrFracs <- None  AdjMFs <- None
 CONSTANTS HDom <- HDom123  HTargets <- TCoreH78  HVals <- HDom123
 CONSTANTS LeafVolCut <- LeafVolCutEnv  ScaleRaises <- ScaleRaisesEnv
 INIT InitB
